@@ -160,11 +160,16 @@ inductive OpRef where
   `Call{DebugInfoRef}` (since fix 6341b4d; before, these fell into `_ => {}`) and resolved by
   `Expression::from` with `convert_debug_info_ref` -/
   | implicitRef (val : Off)
-  /-- unit-relative reference inside the nested expression of `EntryValue{expression}`: the filter
-  recurses into the nested expression (since fix 6341b4d), as `Expression::from` does -/
-  | nestedUnitRef (val : Nat)
-  /-- section-offset reference inside a nested `EntryValue` expression -/
-  | nestedInfoRef (val : Off)
+  /-- unit-relative reference nested in `depth ≥ 1` `EntryValue{expression}` operations: the filter
+  recurses into nested expressions (fix 6341b4d) while `depth ≤ MAX_ENTRY_VALUE_DEPTH` (fix 8679173:
+  `add_nested_expression_refs` descends only `if depth < MAX_ENTRY_VALUE_DEPTH`), and
+  `Expression::from_nested` rejects an `EntryValue` at depth `≥ MAX_ENTRY_VALUE_DEPTH` -/
+  | nestedUnitRef (depth : Nat) (val : Nat)
+  /-- section-offset reference nested in `depth` `EntryValue` operations -/
+  | nestedInfoRef (depth : Nat) (val : Off)
+  /-- an operation without a DIE reference nested in `depth` `EntryValue` operations (it matters
+  only through the nesting bound of the conversion) -/
+  | nestedPlain (depth : Nat)
   deriving Repr, DecidableEq
 
 /-- one attribute value that can carry DIE references, as `add_attribute_refs` sees it -/
@@ -192,15 +197,20 @@ structure Entry where
 
 /-! ## `FilterUnit::read_entry` -/
 
-/-- `add_expression_refs` (the `to_unit_section_offset(..).ok_or(InvalidDebugInfoRef)?` of the
+/-- does `add_nested_expression_refs` reach an operation nested in `depth` `EntryValue`s? It starts
+at depth 0 and descends from depth `d` to `d + 1` only `if d < MAX_ENTRY_VALUE_DEPTH` -/
+def scansDepth (depth : Nat) : Bool := decide (depth ≤ Tables.FilterTags.maxEntryValueDepth)
+
+/-- `add_expression_refs` = `add_nested_expression_refs(.., 0)` (the `to_unit_section_offset(..).ok_or(InvalidDebugInfoRef)?` of the
 section-offset kinds can only fail for a unit outside `.debug_info`, which `Dwarf::units()` never
 yields, so no error path is modelled) -/
 def opDeps (u : UnitHdr) : OpRef → List Off
   | .unitRef val => if u.inBounds val then [u.base + val] else []
   | .infoRef val => [val]
   | .implicitRef val => [val]
-  | .nestedUnitRef val => if u.inBounds val then [u.base + val] else []
-  | .nestedInfoRef val => [val]
+  | .nestedUnitRef depth val => if scansDepth depth && u.inBounds val then [u.base + val] else []
+  | .nestedInfoRef depth val => if scansDepth depth then [val] else []
+  | .nestedPlain _ => []
 
 /-- `add_attribute_refs` (`add_location_refs` iterates the raw list: every entry with `data`) -/
 def attrDeps (u : UnitHdr) : AttrRef → List Off
@@ -291,11 +301,13 @@ def reserve (m : Mode) (units : List UnitHdr) (offsets : List Off) : Out (List (
 inductive ConvErr where
   | invalidUnitRef
   | invalidDebugInfoRef
+  | unsupportedOperation
   deriving Repr, DecidableEq
 
 def ConvErr.name : ConvErr → String
   | .invalidUnitRef => "C.InvalidUnitRef"
   | .invalidDebugInfoRef => "C.InvalidDebugInfoRef"
+  | .unsupportedOperation => "C.UnsupportedOperation"
 
 /-- `convert_unit_ref`: in bounds and a key of `entry_ids` -/
 def convUnitRef (ids : List Off) (u : UnitHdr) (val : Nat) : Option ConvErr :=
@@ -316,8 +328,11 @@ def convOp (ids : List Off) (u : UnitHdr) : OpRef → Option ConvErr
   | .unitRef val => convUnitRef ids u val
   | .infoRef val => convInfoRef ids val
   | .implicitRef val => convInfoRef ids val
-  | .nestedUnitRef val => convUnitRef ids u val
-  | .nestedInfoRef val => convInfoRef ids val
+  -- `from_nested`: the `EntryValue` met at depth `MAX_ENTRY_VALUE_DEPTH` is rejected before its
+  -- nested expression is looked at
+  | .nestedUnitRef depth val => if scansDepth depth then convUnitRef ids u val else some .unsupportedOperation
+  | .nestedInfoRef depth val => if scansDepth depth then convInfoRef ids val else some .unsupportedOperation
+  | .nestedPlain depth => if scansDepth depth then none else some .unsupportedOperation
 
 /-- `convert_attribute_value` (`LocationList::from` converts the expression of every raw entry) -/
 def convAttr (ids : List Off) (u : UnitHdr) : AttrRef → Option ConvErr
